@@ -30,6 +30,7 @@ def scen_layouts(ch, params, out):
     wraps = [ch.choose(f"edge{i}", ["obj", "list", "optional", "list_of_lists"] if parents[i] == -1 else ["obj", "list", "list_of_lists"]) for i in range(n)]
     twins = [ch.flag(f"twin_of_previous{i}") if i > 0 and params.get("twins") else False for i in range(n)]
     fw = ch.choose("framework", params.get("frameworks", ["base", "pydantic", "sqlmodel", "attrs", "dataclasses"]))
+    policy = ch.choose("merge_policy", ["number_10 (nothing merges)", "default (twins merge into one model)"]) if any(twins) else "number_10"
 
     def own_fields(i):
         j = i
@@ -62,10 +63,10 @@ def scen_layouts(ch, params, out):
                 root2[f"m{j}"] = wrapv(j)
     # optional edges below the root level: second occurrence of the parent lacks the child -> needs list parents; keep it simple:
     samples = [root1, root2]
-    out.info = {"parents": list(parents), "wraps": wraps, "twins": twins, "framework": fw}
-    ctx = lambda: f"parents={parents} wraps={wraps} twins={twins} fw={fw}"
+    out.info = {"parents": list(parents), "wraps": wraps, "twins": twins, "framework": fw, "policy": policy}
+    ctx = lambda: f"parents={parents} wraps={wraps} twins={twins} fw={fw} merge={policy}"
     try:
-        gen, reg, _ = pipeline.infer({"Root": samples}, merge=[ModelFieldsNumberMatch(10)], dkf=None)
+        gen, reg, _ = pipeline.infer({"Root": samples}, merge=[ModelFieldsNumberMatch(10)] if policy.startswith("number") else None, dkf=None)
     except Exception as e:
         out.fail("inference_raises", f"{type(e).__name__}: {e} ({ctx()})", f"inference_raises:{type(e).__name__}")
         return
